@@ -39,7 +39,7 @@ SHARD_TIMEOUT = {'quick': 300, 'thorough': 2400}
 
 def plan(tier, seed):
     n = 16 if tier == 'quick' else 64
-    return [{'shard': i, 'collections': 22 if tier == 'quick' else 500} for i in range(n)]
+    return [{'shard': i, 'collections': 22 if tier == 'quick' else 120} for i in range(n)]
 
 
 def attr_text(r: random.Random, target_len: int):
